@@ -156,15 +156,16 @@ def handle_quic_packet(packet: Packet, keylog, quic_sessions: list[QuicSession],
 
     for session in quic_sessions:
         # first try matching connection IDs
+        # a zero-length connection id does not identify a connection: such packets are matched by address below
         if header_type == QuicHeaderType.LONG:
-            if dcid in session.client_cids or dcid in session.server_cids:
+            if len(dcid) > 0 and (dcid in session.client_cids or dcid in session.server_cids):
                 session.handle_packet(packet, dcid, quic_version)
                 return
         else:
             # match by checking all known cid lengths for session
             # longest connection id first: a zero-length id matches every packet and is only a last resort
             for cid in sorted(session.client_cids | session.server_cids, key=len, reverse=True):
-                if cid == packet_payload[1:1 + len(cid)]:
+                if len(cid) > 0 and cid == packet_payload[1:1 + len(cid)]:
                     session.handle_packet(packet, cid, quic_version)
                     return
 
